@@ -583,6 +583,13 @@ func (q *TaskQueue) waitForTask(sleepDelay time.Duration) task.Task {
 				// No task to return: increase wait time.
 				waitUntil += q.DelayOnQueueIsEmpty
 			} else {
+				// The ticker may win the select even if the queue is already stopped:
+				// check Done channel again before returning a task.
+				select {
+				case <-q.ctx.Done():
+					return nil
+				default:
+				}
 				return q.GetFirst()
 			}
 		}
